@@ -60,8 +60,10 @@ MADER_GAMMA = [3.0, 2.0]
 MADER_T = [2.0e-6, 4.0e-6, 6.25e-6]
 NOFF = 16
 
-NOISE = 1e-12          # relative size below which a difference between neighbouring values is rounding noise (class A/B)
-NOISE_C = {"GenEOS": 1e-7, "GenEOS_table": 1e-7, "Sedov": 1e-7}   # class C / root-solve families: measured reversals <= 2e-9
+NOISE = 1e-12          # relative size below which a difference between neighbouring values is rounding noise; a reversal must exceed 10 x
+NOISE_C = {"GenEOS": 1e-10, "GenEOS_table": 1e-10}   # interpolated tables; measured: no reversal even at 1e-15 (Sod, ul=-1.5, pl=0.1, Einfeldt, Shyue, LeBlanc, Lee)
+SMEAR_TOL = 1e-9       # value inside a smeared cell vs the interval spanned by the states on either side (linear ramp: measured 0)
+RS_MIN_RISE = 1e-5     # radiative shocks: smallest end-to-end rise of density / pressure that counts as compression
 SUOLSON_FLOOR = 3e-4   # absolute, in (T/T_bc)^4; measured tail noise of the oscillatory quadrature 2.8e-5
 VACUUM_OK = {"EHEP", "Sedov"}
 
@@ -197,6 +199,9 @@ def hydro_profile(A, t, rec, C, dg, cnt):
     jumps = J.locate(Fj, a, b, n=A.scan, geometric=A.geometric, arity=A.arity, xtol=xtol, max_jumps=A.max_jumps, cnt=cnt, pad=pad)
     C["located_discontinuities"] = C.get("located_discontinuities", 0) + len(jumps)
     # ---- fine point sequence: 400 uniform + 16 straddling each located discontinuity
+    if name == "Sedov" and jumps:
+        # the locator's window brackets the shock only; the profile runs from the core to beyond the shock
+        a, b = 2e-3 * jumps[0]["x"], 1.3 * jumps[0]["x"]
     L = b - a
     pts = list(a + (np.arange(400) + 0.5) * L / 400.0)
     inside = []
@@ -283,8 +288,8 @@ def hydro_profile(A, t, rec, C, dg, cnt):
             sc = max(abs(lo_), abs(hi_), 1e-6 * j["V"] if f == J.U else 0.0, 1e-300)
             over = max(float(np.nanmax(Mi[f] - hi_)), float(np.nanmax(lo_ - Mi[f])), 0.0) / sc
             C["smeared_cells_checked"] = C.get("smeared_cells_checked", 0) + 1
-            if over > 1e-6:
-                rec.add("bounded:%s-in-smeared-cell" % nm, {"t": t, "x": round(float(j["x"]), 6)}, over, 1e-6)
+            if over > SMEAR_TOL:
+                rec.add("bounded:%s-in-smeared-cell" % nm, {"t": t, "x": round(float(j["x"]), 6)}, over, SMEAR_TOL)
     # ---- monotone fans (Riemann: runs of varying pressure; EHEP: runs of one region label)
     nfans = 0
     if name.startswith("IGEOS") or name.startswith("GenEOS"):
@@ -473,9 +478,11 @@ def radshock_task(name, cfg, rec, C, dg):
         up_right = abs(rho[-1] - cfg["rho0"]) <= abs(rho[0] - cfg["rho0"])
         r_up, r_dn = (rho[-1], rho[0]) if up_right else (rho[0], rho[-1])
         p_up, p_dn = (p[-1], p[0]) if up_right else (p[0], p[-1])
-        if not (r_dn > r_up):
+        # "rises" = by more than RS_MIN_RISE: the profiles start from equilibrium perturbed by eps = 1e-6 (documented
+        # eps_precursor_equil), so a rise below 1e-5 is indistinguishable from no compression (a Mach 1.05 shock compresses by 7 %)
+        if np.isfinite([r_up, r_dn]).all() and not (r_dn > r_up * (1.0 + RS_MIN_RISE)):
             rec.add("shock:density-rises", {"t": t, "wave": "end-states"}, float((r_up - r_dn) / (r_up + r_dn)), 0.0)
-        if not (p_dn > p_up):
+        if np.isfinite([p_up, p_dn]).all() and not (p_dn > p_up * (1.0 + RS_MIN_RISE)):
             rec.add("shock:pressure-rises", {"t": t, "wave": "end-states"}, float((p_up - p_dn) / (p_up + p_dn)), 0.0)
         # embedded hydrodynamic shock: a density step > 1 % between neighbouring zoom points (spacing L / 1.6e6)
         d = np.diff(rho)
